@@ -6,6 +6,9 @@ from checks.cryptstream import finish_proof
 def w1(n=8): return [bytes([(1 << (7 - b)) if i == k else 0 for i in range(n)]) for k in range(n) for b in range(8)]
 def inv(b): return bytes(x ^ 0xff for x in b)
 
+# encrypt's edflag: 0 encrypts, EVERY non-zero value decrypts (crypt-obsolete.h, glibc) - not just 1 (seeded/C17e)
+EDFLAGS = [0, 0, 0, 1, 1, 2, 255, 256, 65536, 2**30]
+
 def run(R):
     ok, badthm = R.prove()
     quick = R.tier == "quick"
@@ -49,12 +52,12 @@ def run(R):
             k = R.rng.choice(keys); ops2.append("SKR %d %s %d" % (o, hx(k), R.rng.randrange(0, 50)))
         elif r < 0.6:
             # "T": the call runs on a fresh thread - the static key is process-wide, whichever thread set it
-            ops2.append("EN %s %d %d%s" % (hx(R.rng.choice(blocks)), R.rng.randrange(2), R.rng.randrange(0, 50), R.rng.choice(["", "", " T"])))
+            ops2.append("EN %s %d %d%s" % (hx(R.rng.choice(blocks)), R.rng.choice(EDFLAGS), R.rng.randrange(0, 50), R.rng.choice(["", "", " T"])))
         elif r < 0.8:
             o = R.rng.randrange(3)
             if keyed.get(o) is False:
                 keyed[o] = True; ops2.append("SKR %d %s %d" % (o, hx(R.rng.choice(keys)), R.rng.randrange(0, 50)))
-            ops2.append("ENR %d %s %d %d" % (o, hx(R.rng.choice(blocks)), R.rng.randrange(2), R.rng.randrange(0, 50)))
+            ops2.append("ENR %d %s %d %d" % (o, hx(R.rng.choice(blocks)), R.rng.choice(EDFLAGS), R.rng.randrange(0, 50)))
         elif r < 0.9:
             m = R.rng.choice(["descrypt", "md5crypt", "bsdicrypt", "nt"])
             ops2.append(CS.crypt_op(R.rng.choice(["r", "st"]), R.rng.randrange(3), rb(R.rng.randrange(0, 12)).replace(b"\0", b"x"), S.CANON[m]))
